@@ -197,6 +197,51 @@ def run(ctx):  # noqa: C901, PLR0912, PLR0915
         n_deref += _check_none_derefs(ctx, fi, producers)
     ctx.floor('C03.R3', n_deref, 12, 'dereferences of TransactionItem.old/.new in the commit closure')
 
+    # ------------------------------------------------------------------ R6 unique keys are checked when the call is made
+    ctx.rule('C03.R6', 'a new object is accepted into a transaction only after its unique key was checked against the table')
+    unique_idx = {'descriptions': 'handle', 'states': 'descriptor_handle', 'context_states': 'handle'}
+    n_new = 0
+    for fi in api_funcs:
+        g = cfg_of(fi)
+        src = unparse(fi.node)
+        for n, c in g.nodes_calling('TransactionItem'):
+            args = {}
+            for i, a in enumerate(c.args):
+                args[('old', 'new')[i]] = a
+            for kw in c.keywords:
+                args[kw.arg] = kw.value
+            old = args.get('old')
+            if not (isinstance(old, ast.Constant) and old.value is None):
+                # old comes from a lookup: the None case is "lookup found nothing" on the unique index
+                continue
+            n_new += 1
+            # which tables can the new object go to?
+            new = unparse(args.get('new'))
+            tables = []
+            if 'descriptor_updates' in unparse(getattr(n.stmt, 'targets', [ast.Constant(value='')])[0]):
+                tables = ['descriptions']
+            else:
+                ctxonly = fi.cls is not None and fi.cls.name == 'ContextStateTransaction'
+                tables = ['context_states'] if ctxonly else ['states', 'context_states']
+            missing = []
+            for t in tables:
+                idx = f'{t}.{unique_idx[t]}'
+                checked = any(isinstance(x, ast.Compare) and any(isinstance(o, (ast.In, ast.NotIn)) for o in x.ops)
+                              and idx in unparse(x) for x in ast.walk(fi.node)) or \
+                    any(isinstance(x, ast.Call) and call_name(x) in ('get_one', 'get') and idx in unparse(x.func)
+                        for x in ast.walk(fi.node))
+                raises = any(isinstance(x, ast.Raise) for x in walk_no_nested(fi.node))
+                generated = t == 'context_states' and 'uuid.uuid4().hex' in src and fi.name == 'mk_context_state'
+                if not (checked and raises) and not generated:
+                    missing.append(idx)
+            ctx.ob('C03.R6', f'{fi.cls.name}.{fi.name}: new {new}', not missing,
+                   f'{fi.cls.name}.{fi.name}: the unique key of the new object is checked against the table when the call '
+                   f'is made' if not missing else
+                   f'{fi.cls.name}.{fi.name} accepts a new object without checking the unique index {missing}: a duplicate is '
+                   f'only noticed by the KeyError of the table during the commit, after mdib_version was raised and '
+                   f'earlier items were written (half-applied commit)', fi=fi, node=c)
+    ctx.floor('C03.R6', n_new, 4, 'producers of TransactionItem(None, new)')
+
     # ------------------------------------------------------------------ R4
     # (i) mk_copy is deep
     mk = repo.func('sdc11073.mdib.containerbase.ContainerBase.mk_copy')
@@ -524,4 +569,11 @@ SEEDS = [
     seed('control: get_state refactored', 'C03.R4',
          (_T, "        mdib_state = self._mdib.states.descriptor_handle.get_one(descriptor_handle, allow_none=False)\n        if not self._is_correct_state_type(mdib_state):",
           "        table = self._mdib.states\n        mdib_state = table.descriptor_handle.get_one(descriptor_handle, allow_none=False)\n        if not self._is_correct_state_type(mdib_state):"), control=True),
+]
+
+SEEDS += [
+    seed('context add_state: duplicate handle check dropped', 'C03.R6',
+         (_T, "        if state_container.Handle in self._state_updates or state_container.Handle in self._mdib.context_states.handle:\n            msg = f'Context State {state_container.Handle} already exists!'\n            raise ValueError(msg)\n", "")),
+    seed('add_descriptor: existing handle accepted', 'C03.R6',
+         (_T, "        if descriptor_handle in self._mdib.descriptions.handle:\n            msg = f'Cannot create descriptor {descriptor_handle}, it already exists in mdib!'\n            raise ValueError(msg)\n", "")),
 ]
